@@ -27,6 +27,7 @@ type Ob struct {
 	Forbid bool   // every matching site is a violation (expected count zero)
 	MutOK []string // parameters (names from P) that the function may legitimately rebind before the sink
 	Why  string
+	AltOf string  // obligations with the same AltOf are alternative spellings of one requirement: at least one of them must match a site
 }
 
 var allGuars []*Guar
@@ -123,8 +124,32 @@ func RunE1(c *Ctx, prop string, obs []Ob) {
 		e.cache = map[*FuncInfo]*e1func{}
 		e.inferred, e.inferring = nil, nil
 	}
+	altMatched := map[string]int{}
+	altFirst := map[string]Ob{}
 	for _, ob := range obs {
+		if ob.AltOf != "" {
+			if _, ok := altFirst[ob.AltOf]; !ok {
+				altFirst[ob.AltOf] = ob
+			}
+			ob.Opt = true
+			ob.Min = 0
+			altMatched[ob.AltOf] += evalOb(c, e, ob)
+			continue
+		}
 		evalOb(c, e, ob)
+	}
+	for g, n := range altMatched {
+		ob := altFirst[g]
+		fi := c.P.Fn(ob.Fn)
+		pos := "-"
+		if fi != nil {
+			pos = c.P.Position(fi.Pos())
+		}
+		c.R.Obl(Obligation{Rule: g, Func: ob.Fn, Construct: "one of the accepted spellings is present", Pos: pos, Discharged: n > 0, Nontrivial: true})
+		if n == 0 {
+			c.R.Find(Finding{Rule: g, Func: ob.Fn, Construct: "required shape absent (all alternatives)", Pos: pos,
+				Msg: fmt.Sprintf("%s contains none of the accepted spellings of requirement %s%s (e.g. `%s %s`): the values are no longer routed this way", ob.Fn, g, whySuffix(ob.Why), ob.Kind, ob.Pat)})
+		}
 	}
 }
 
@@ -135,11 +160,11 @@ func (c *Ctx) e1() *e1 {
 	return c.e1eng
 }
 
-func evalOb(c *Ctx, e *e1, ob Ob) {
+func evalOb(c *Ctx, e *e1, ob Ob) (nMatched int) {
 	fi := c.P.Fn(ob.Fn)
 	if fi == nil || fi.Body == nil {
 		c.R.Fail("anchor-unresolved", ob.Fn, ob.ID, fmt.Sprintf("function %s named by rule %s not found in the tree: re-point the specification", ob.Fn, ob.ID))
-		return
+		return 0
 	}
 	f := e.analyse(fi)
 	var pat *Term
@@ -192,6 +217,7 @@ func evalOb(c *Ctx, e *e1, ob Ob) {
 		}
 	}
 	matched := 0
+	defer func() { nMatched = matched }()
 	ord := map[string]int{}
 	for _, s := range f.sites {
 		if s.kind != kind {
@@ -285,16 +311,18 @@ func evalOb(c *Ctx, e *e1, ob Ob) {
 	if len(when) > 0 {
 		ob.Max = 0
 	}
-	if kind == "ret" && len(clauses) > 0 && ob.Pat == "" {
-		// every return of that status is held to the clauses: how many return statements there are is not a rule
+	if kind == "ret" {
+		// every return of that status / shape is held to the clauses: how many return statements there are is not a rule
 		if min > 1 {
 			min = 1
 		}
-		ob.Max = 0
+		if len(clauses) > 0 || ob.Pat != "" {
+			ob.Max = 0
+		}
 	}
 	if ob.Forbid {
 		c.R.Obl(Obligation{Rule: ob.ID, Func: fi.Name, Construct: "no " + ob.Kind + " " + ob.Pat, Pos: c.P.Position(fi.Pos()), Discharged: matched == 0, Nontrivial: true, Ctl: fi.Ctl})
-		return
+		return matched
 	}
 	if matched < min {
 		if strings.HasPrefix(ob.ID, "E8.") || strings.HasPrefix(ob.ID, "E7.") || (ob.Why != "" && ob.Pat != "") {
@@ -313,6 +341,7 @@ func evalOb(c *Ctx, e *e1, ob Ob) {
 	if f.widened {
 		c.R.Extra["widened:"+fi.Name] = true
 	}
+	return matched
 }
 
 func whySuffix(w string) string {
